@@ -1,6 +1,6 @@
 (* Entry point of the executable model: one case tree in, one result tree out. The first leaf selects
    the property, the second the operation. The harness sends the same case to the implementation. *)
-From ToughV Require Import Model.Base Model.Pct Model.Json Model.CJson Model.ClientRun.
+From ToughV Require Import Model.Base Model.Pct Model.Json Model.CJson Model.ClientRun Model.TName.
 
 Definition run_C16 (op : N) (a : list tree) : tree :=
   match op, a with
@@ -22,11 +22,24 @@ Definition run_C11 (op : N) (a : list tree) : tree :=
   | _ => T [L 999]
   end.
 
+Definition run_C08 (op : N) (a : list tree) : tree :=
+  match a with
+  | [name] =>
+      match clean_name (t_bytes name) with
+      | inr r => T [L 0; of_bytes r]
+      | inl UnsafeDotDot => T [L 1; L 1]
+      | inl UnsafeEmpty => T [L 1; L 2]
+      | inl UnsafeSlash => T [L 1; L 3]
+      end
+  | _ => T [L 999]
+  end.
+
 Definition run_case (t : tree) : tree :=
   match t with
   | T (L p :: L op :: args) =>
       if p =? 16 then run_C16 op args
       else if p =? 11 then run_C11 op args
+      else if p =? 8 then run_C08 op args
       else if p =? 6 then run_client op args
       else T [L 999]
   | _ => T [L 999]
